@@ -146,6 +146,11 @@ def do_replay(prop: str, path: str) -> int:
         from .props import idlife
         idlife.replay(case)
         return 0
+    if prop == "C13" and ("roundtrip" in case or "session" in case):
+        # a history / registry saved and loaded again, or one gateway with a persistence file: re-executed
+        from .props import persist
+        persist.replay(case)
+        return 0
     if "history" in case:
         from . import gw
         h = gw.Hist.from_json(case["history"])
